@@ -173,6 +173,128 @@ fn check_input(inp: &Input, forms: &[usize], max_boundaries: usize, rng: &mut Rn
     }
 }
 
+fn join_multi(toks: &[(TKind, String)], seps: &[Option<&str>]) -> String {
+    let mut s = String::new();
+    for (i, (_, t)) in toks.iter().enumerate() {
+        s.push_str(t);
+        if i + 1 < toks.len() {
+            s.push_str(seps[i].unwrap_or(" "));
+        }
+    }
+    s.push('\n');
+    s
+}
+
+/// random subsets of boundaries, each with its own random form (mixed line endings, several comment kinds at once)
+fn check_multi(inp: &Input, n: usize, rng: &mut Rng, rep: &mut Report) {
+    let cfg = Cfg::default_cfg();
+    let base_text = join(&inp.toks, None);
+    let base = comp::rasn(&[base_text.clone()], &cfg);
+    let (bstatus, bdigest) = digest(&base);
+    if bstatus == "Panic" {
+        return;
+    }
+    let nb = inp.toks.len().saturating_sub(1);
+    for _ in 0..n {
+        let density = 1 + rng.below(6) as u32;
+        let mut seps: Vec<Option<&str>> = vec![None; nb];
+        for b in 0..nb {
+            if skip_boundary(&inp.toks, b) || !rng.chance(1, density) {
+                continue;
+            }
+            let fi = rng.below(FORMS.len());
+            let (_fname, sep, fclass) = FORMS[fi];
+            if fclass == "none" && !tok::separable_without_space(&inp.toks[b].1, &inp.toks[b + 1].1) {
+                continue;
+            }
+            seps[b] = Some(sep);
+        }
+        let text = join_multi(&inp.toks, &seps);
+        let re = tok::tokenize(&text);
+        if !re.clean || re.toks.len() != inp.toks.len() || re.toks.iter().zip(&inp.toks).any(|(a, b)| a.text(&text) != b.1) {
+            rep.count("transform_rejected_by_own_tokenizer", 1);
+            continue;
+        }
+        rep.evaluations += 1;
+        rep.count("relayouts[multi-boundary]", 1);
+        rep.nontrivial.insert(hash_str(&text));
+        let run = comp::rasn(&[text.clone()], &cfg);
+        let (status, dg) = digest(&run);
+        let kind = if status.split('/').next() != bstatus.split('/').next() {
+            Some(format!("status:{}->{}", bstatus.split('/').next().unwrap(), status.split('/').next().unwrap()))
+        } else if status != bstatus {
+            Some("warnings-changed".to_string())
+        } else if dg != bdigest {
+            Some("bindings-changed".to_string())
+        } else {
+            None
+        };
+        if let Some(kind) = kind {
+            // minimise the set of re-laid boundaries (greedy, deterministic); only for the first few violations of a run
+            let mut cur: Vec<Option<&str>> = seps.clone();
+            let budget_ok = MINIMISED.fetch_add(1, std::sync::atomic::Ordering::Relaxed) < 24;
+            let violates = |sp: &[Option<&str>]| -> bool {
+                let t = join_multi(&inp.toks, sp);
+                let (st, d) = digest(&comp::rasn(&[t], &cfg));
+                let k = if st.split('/').next() != bstatus.split('/').next() {
+                    Some(format!("status:{}->{}", bstatus.split('/').next().unwrap(), st.split('/').next().unwrap()))
+                } else if st != bstatus {
+                    Some("warnings-changed".to_string())
+                } else if d != bdigest {
+                    Some("bindings-changed".to_string())
+                } else {
+                    None
+                };
+                k.as_deref() == Some(kind.as_str())
+            };
+            if budget_ok {
+                // chunked removal first, then single removal
+                let mut chunk = cur.iter().filter(|x| x.is_some()).count() / 2;
+                while chunk >= 1 {
+                    let idxs: Vec<usize> = (0..nb).filter(|b| cur[*b].is_some()).collect();
+                    let mut progressed = false;
+                    for c in idxs.chunks(chunk) {
+                        let mut cand = cur.clone();
+                        for b in c {
+                            cand[*b] = None;
+                        }
+                        if cand.iter().any(|x| x.is_some()) && violates(&cand) {
+                            cur = cand;
+                            progressed = true;
+                        }
+                    }
+                    if !progressed {
+                        chunk /= 2;
+                    }
+                }
+            }
+            let rest: Vec<usize> = (0..nb).filter(|b| cur[*b].is_some()).collect();
+            let key = if budget_ok && rest.len() <= 3 {
+                rest.iter()
+                    .map(|b| {
+                        let (lk, lt) = &inp.toks[*b];
+                        let (rk, rt) = &inp.toks[*b + 1];
+                        let sep = cur[*b].unwrap();
+                        let fam = FORMS.iter().find(|f| f.1 == sep).map(|f| if f.2 == "comment" { if sep.contains("/*") { "block-comment" } else { "line-comment" } } else { f.2 }).unwrap_or("?");
+                        format!("{} {}|{fam}", tclass(lk, lt), tclass(rk, rt))
+                    })
+                    .collect::<Vec<_>>()
+                    .join(" + ")
+            } else {
+                "multi-boundary".to_string()
+            };
+            let min_text = join_multi(&inp.toks, &cur);
+            rep.violations.push(Violation {
+                sig: format!("c13|{kind}|{key}"),
+                what: format!("{kind} after re-laying out {} boundaries (minimal set {}): baseline {bstatus}, after {status} [{}]", seps.iter().filter(|s| s.is_some()).count(), rest.len(), inp.origin),
+                replay: json!({"origin": inp.origin, "baseline_text": base_text, "relayout_text": min_text, "baseline": base.out.brief(), "relayout": run.out.brief()}),
+            });
+        }
+    }
+}
+
+static MINIMISED: std::sync::atomic::AtomicUsize = std::sync::atomic::AtomicUsize::new(0);
+
 fn g_input(seed: u64, idx: u64) -> Input {
     let o = GenOpts { modules: (1, 2), assigns: (1, 7), max_depth: 2, max_comps: 4, ..GenOpts::default() };
     let set = gen::random_set(seed, 1300, idx, &o);
@@ -193,9 +315,9 @@ fn corpus_input(c: &Corpus, i: usize) -> Option<Input> {
 pub fn run(ctx: &Ctx) -> Report {
     let mut rep = Report::new(
         "exploration",
-        "inputs: grammar-G module sets re-tokenised by the harness's own X.680 tokenizer (all boundaries when <= budget, else a random subset) and real-world corpus modules (only those whose single-space re-join reproduces the original outcome; sampled boundaries); transformation: the separator at ONE token boundary replaced by tab / LF / CRLF / mixed blanks / nothing (only where the two tokens stay separable) / `-- c` to end of line (LF and CRLF) / `-- c --` / `/* c */` (spaced and tight) / nested block comment / multi-line block comment / comments containing quotes, braces, keywords, non-ASCII. Verdict: same Ok/Err status, same number of warnings, identical token-normalised bindings with #[doc] removed. Non-trivial = a re-layout that our tokenizer confirms to have the same token sequence; distinct by text.",
+        "inputs: grammar-G module sets re-tokenised by the harness's own X.680 tokenizer (all boundaries when <= budget, else a random subset) and real-world corpus modules (only those whose single-space re-join reproduces the original outcome; sampled boundaries); transformation: the separator at ONE token boundary replaced by tab / LF / CRLF / mixed blanks / nothing (only where the two tokens stay separable) / `-- c` to end of line (LF and CRLF) / `-- c --` / `/* c */` (spaced and tight) / nested block comment / multi-line block comment / comments containing quotes, braces, keywords, non-ASCII. Additionally N random multi-boundary re-layouts per input (each boundary independently re-laid with a random form, density 1/1..1/6: mixed line endings and comment kinds). Verdict: same Ok/Err status, same number of warnings, identical token-normalised bindings with #[doc] removed. Non-trivial = a re-layout that our tokenizer confirms to have the same token sequence; distinct by text.",
     );
-    rep.must_observe = vec!["relayouts[ws]".into(), "relayouts[comment]".into(), "relayouts[none]".into(), "baseline[Ok]".into()];
+    rep.must_observe = vec!["relayouts[multi-boundary]".into(), "relayouts[ws]".into(), "relayouts[comment]".into(), "relayouts[none]".into(), "baseline[Ok]".into()];
     rep.assumptions = vec!["harness tokenizer (tok.rs) decides token boundaries; `-` directly before a number is not separated".into()];
     if let Some(path) = &ctx.replay {
         let doc: serde_json::Value = serde_json::from_str(&std::fs::read_to_string(path).expect("replay")).expect("json");
@@ -220,6 +342,7 @@ pub fn run(ctx: &Ctx) -> Report {
     let forms = if ctx.quick() { quick_forms } else { all_forms };
     let max_b = ctx.pick(150usize, 300);
     let max_b_corpus = ctx.pick(40usize, 120);
+    let n_multi = ctx.pick(40usize, 200);
     let seed = ctx.seed;
     let acc = Acc::new(rep);
     par_for(n_g, |i| {
@@ -228,6 +351,7 @@ pub fn run(ctx: &Ctx) -> Report {
         let inp = g_input(seed, i);
         if inp.toks.len() >= 2 {
             check_input(&inp, &forms, max_b, &mut rng, &mut local);
+            check_multi(&inp, n_multi, &mut rng, &mut local);
         }
         acc.with(|r| r.merge(local));
     });
@@ -248,6 +372,7 @@ pub fn run(ctx: &Ctx) -> Report {
             if so == sr && d_o == d_r && inp.toks.len() >= 2 {
                 local.count("corpus_files_used", 1);
                 check_input(&inp, &forms, max_b_corpus, &mut rng, &mut local);
+                check_multi(&inp, n_multi, &mut rng, &mut local);
             } else {
                 local.count("corpus_files_skipped(rejoin differs: comments carry docs or tokenizer suspect)", 1);
             }
